@@ -346,6 +346,17 @@ def parent_map(forest):
 def gen_filters(rng, forest, lo=1, hi=3):
     used = set()
     nodes = list(all_nodes(forest))
+    if len(nodes) >= 2 and lo <= 1 and rng.random() < 0.12:
+        # aimed: ONE membership keyword whose values are the values of several tasks, NOT in list order and with
+        # a repetition (a shortcut that answers a lone membership test from an index would reorder / repeat)
+        attr = rng.choice(['id', 'id', 'id', 'name', 'resource', 'estimate', 'parent_id'])
+        par = parent_map(forest)
+        vals = [node_view(n, par[n['o']], attr) for n in rng.sample(nodes, rng.randint(2, min(4, len(nodes))))]
+        vals = [v for v in vals if v is not None] or [node_view(nodes[0], None, 'id')]
+        vals.reverse()
+        if rng.random() < 0.5:
+            vals.append(vals[0])
+        return [[attr + rng.choice(['_in_', '_in_', '_in_', '_not_in_']), ['l', vals, rng.choice(['list', 'tuple'])]]]
     if nodes and rng.random() < 0.5:
         # all filters are satisfied by one chosen task
         target = rng.choice(nodes)
